@@ -17,7 +17,9 @@ CONDS = ["true", "false", "K==1", "K%2==0", "K<2", "p==1", "!(K==1)", "K==1&&p<2
 D_COND = 2
 WHILE_N = [0, 1, 2, 3]
 D_N = 2
-BOUNDS = [(0, 0), (0, 2), (1, 3), (2, 0), ("e", "e")]     # ("e","e"): lo = `p - p`, hi = `g(1)` (=2, evaluated once)
+BOUNDS = [(0, 0), (0, 2), (1, 3), (2, 0), ("e", "e"), ("v", "v"), ("v", "v-")]     # ("e","e"): lo = `p - p`, hi = `g(1)` (=2, evaluated once)
+# ("v","v") / ("v","v-"): both bounds are PLAIN VARIABLES (lob = 0, hib = 2) that the loop body changes as its first statement (hib grows / shrinks, lob grows):
+# the bounds were read once, before the first iteration
 D_BOUNDS = (0, 2)
 STEPS = [None, 1, 2, "var", "expr", "call"]     # var: `st` (=1); expr: `st + 1`; call: `g(0)` (=1, logs each evaluation)
 COUNTERS = ["anon", "fresh", "collide"]
@@ -290,6 +292,11 @@ def stmts(ctx, s, counters, K, depth, can_return=True):
             st = ("int", step)
         if lo == "e":
             lo_e, hi_e = ("bin", "-", var("p"), var("p")), ("call", var("g"), [("int", 1)])
+        elif lo == "v":
+            lb, hb = f"lob{u}", f"hib{u}"
+            delta = ("bin", "+", var(hb), ("int", 1)) if hi == "v" else ("bin", "-", var(hb), ("int", 2))
+            body = [("assign", hb, delta, None, ()), ("assign", lb, ("bin", "+", var(lb), ("int", 5)), None, ())] + body
+            return [("assign", lb, ("int", 0), None, ()), ("assign", hb, ("int", 2), None, ()), ("from", var(lb), var(hb), incl, st, name, body)]
         else:
             lo_e, hi_e = ("int", lo), ("int", hi)
         return [("from", lo_e, hi_e, incl, st, name, body)]
